@@ -108,7 +108,7 @@ vk_c11!(c11_iter_n7, iter, 7, 26);
 // VK-bounds: nr_shards=1 (every port congruent)
 // VK-assumes: as c11_draw_n3
 vk_c11!(c11_iter_n1, iter, 1, 26);
-// VK: prop=C11 tier=thorough cap=1800 stubbed=1 replay=native-rng
+// VK: prop=C11 tier=off cap=1800 stubbed=1 replay=native-rng
 // VK-funcs: as c11_draw_n3
 // VK-bounds: nr_shards=1000 (window shorter than the shard count)
 // VK-assumes: as c11_draw_n3
